@@ -38,6 +38,16 @@ let run_case (line : string) : string =
             rib := r1;
             mo := show_fwd (FilterGlue.upds_of ds) :: show_osms (FilterGlue.outs_of ds) :: !mo;
             so := show_fwd (FilterGlue.upds_of ds') :: show_osms (FilterGlue.outs_of ds') :: !so
+        | ["M"; id; tag; a; pfx] ->
+            (* a route of an MRT table dump: Update::Single, the provenance sits in an MrtContext *)
+            let id = n (i_of id) and tag = n (i_of tag) and a = parse_attrs a in
+            let k = ((n 0, n (i_of pfx)), id) in
+            let ps = [ { fp_pay = { RibModel.p_key = k; p_active = true; p_attrs = tag }; fp_in = rib_view_ctx CtxMrt k (Some a) } ] in
+            let (r1, ds) = rib_unit true FilterGlue.render_rib prog !rib ps in
+            let (_, ds') = rib_unit false FilterGlue.render_rib_spec prog !rib ps in
+            rib := r1;
+            mo := show_fwd (FilterGlue.upds_of ds) :: show_osms (FilterGlue.outs_of ds) :: !mo;
+            so := show_fwd (FilterGlue.upds_of ds') :: show_osms (FilterGlue.outs_of ds') :: !so
         | ["Q"; pfx] ->
             let es = RibModel.rib_query !rib (n 0) (n (i_of pfx)) in
             let toks = Stdlib.List.sort compare
